@@ -123,7 +123,7 @@ func runC04(c *Ctx, i int, r *rand.Rand) {
 			}
 		}
 	}
-	script := &BackendScript{Comp: pick(r, []string{"", "gzip"}), DeclareTrailers: chance(r, 30), FlushEach: chance(r, 30)}
+	script := &BackendScript{Comp: pick(r, []string{"", "gzip"}), DeclareTrailers: chance(r, 30), DeclareCase: pick(r, []int{0, 1, 2}), FlushEach: chance(r, 30)}
 	nresp := 1
 	if m.Stream == stServer || m.Stream == stBidi {
 		nresp = pick(r, []int{0, 1, 3})
@@ -148,6 +148,7 @@ func runC04(c *Ctx, i int, r *rand.Rand) {
 			a, _ := anypb.New(pick(r, detailPool)(r))
 			e.Details = append(e.Details, a)
 		}
+		e.PadDetails = chance(r, 35)
 		script.Err = e
 		script.ErrAfter = r.IntN(len(script.Msgs) + 1)
 		if m.Stream == stUnary || m.Stream == stClient {
